@@ -113,12 +113,18 @@ func (s *relaygenSys) alloc(proto string, req int) Obs {
 	if proto == "udp" {
 		var c net.PacketConn
 		c, adv, err = s.gen.AllocatePacketConn(conf)
+		if err == nil && c == nil {
+			return Obs{"k": "alloc", "ok": true, "port": -1, "advport": -1, "adv": "no socket and no error"}
+		}
 		if err == nil {
 			sock, local = c, c.LocalAddr()
 		}
 	} else {
 		var l net.Listener
 		l, adv, err = s.gen.AllocateListener(conf)
+		if err == nil && l == nil {
+			return Obs{"k": "alloc", "ok": true, "port": -1, "advport": -1, "adv": "no listener and no error"}
+		}
 		if err == nil {
 			sock, local = l, l.Addr()
 		}
